@@ -15,5 +15,26 @@ META = {
     },
 }
 
+META["C18"] = {
+    "text": "Proof: for every locus, capacity, per-bucket minimum and every sequence of update/delete/expire operations the model's "
+            "count equals the number of entries held and never exceeds max (inductive invariant), lookups refine a map (per-step "
+            "refinement theorems), Expire removes exactly the expired entries despite the min-expiry shortcut, and the eviction "
+            "victim is a newest entry of the farthest bucket above its protected minimum. The real Cache is driven through the "
+            "same random operation sequences and compared after every operation.",
+    "design_ref": "DESIGN.md section 5 C18",
+    "note": _NOTE,
+    "technique": "Lean 4 inductive invariant + refinement theorems over operation sequences; lock-step differential correspondence with p/kademlia.Cache",
+}
+META["C19"] = {
+    "text": "Proof: DistanceCmp equals bytes.Compare of XOR distances and is a total preorder (all lengths); ForEach visits every "
+            "entry exactly once in non-decreasing distance, Closest is a minimum and ForEachCloser returns all and only the nearer "
+            "entries, for every cache content with entry keys at least as long as the locus and query keys of any length. The "
+            "bucket visiting order is proved via a bit-level lemma; the real ForEach/Closest/ForEachCloser sequences are compared "
+            "with the model each run. Entry keys shorter than the locus are a recorded known finding.",
+    "design_ref": "DESIGN.md section 5 C19",
+    "note": _NOTE,
+    "technique": "Lean 4 theorems (bit-list bridge, sortedness of the bucket visiting order) + differential correspondence",
+}
+
 _PENDING = "check under construction in this build round; will be claimed once its model, theorems and correspondence stream pass on the unchanged tree"
 NOT_APPLICABLE = {("C%02d" % i): _PENDING for i in range(1, 21)}
